@@ -73,6 +73,11 @@ TEXT = {
         "level_text": "Exploration over header/configuration combinations and NIP-11 documents; the document oracle is a generic JSON value constructed by the harness from the generated configuration (omitempty semantics), not the code's own encoder.",
         "level_note": "Near-miss Accept spellings (parameters, case, lists) may be routed to the document or to the default handler (statement is about the exact value). Empty Upgrade header not generated.",
     },
+    "C16": {
+        "technique": "property-based testing (rapid): generated client message sequences against a deterministic store model (cache handler: complete output compared reply by reply) and a prefix-tolerant model (SQLite handler, asynchronous insertion; exact after an observed flush); differential dump/restore with identical-answer and byte-identical second dump checks",
+        "level_text": "Exploration: the whole reply stream of each generated session is compared with the model's concatenated expected replies; dump/restore is a differential check between the original and the restored handler on generated queries, including caches of 60-150 events with timestamp ties.",
+        "level_note": "Trusted: harness/model/detstore.go (ties excluded by construction for the cache replies), sqlitemodel.go. SQLite REQ answers may reflect any prefix of the submitted events until the flush marker is visible.",
+    },
     "C10": {
         "technique": "property-based testing (rapid): grammar-generated wire texts with near-miss mutations against a no-panic / completeness / decode-encode-decode oracle, value round trips for all 14 types, repository corpus replay; native go fuzz target in the thorough tier",
         "level_text": "Exploration: tens of thousands of generated and mutated JSON texts per run go through ParseClientMsg and json.Unmarshal of all 14 exported types (no panic, complete value, idempotent re-decode), and generated values of every type are round-tripped; thorough adds a coverage-guided fuzz campaign with the same oracle inside the target.",
